@@ -61,7 +61,8 @@ def gen_flat(rng):
             else [NAMES[k] + "Slow", NAMES[k] + "Fast"]
         for bn in bnames:
             while True:
-                fid = rng.randint(0, 2047)
+                # identifier 0 is an identifier like any other (a quarter of the schemas have a message with it)
+                fid = 0 if (not used_ids and rng.random() < 0.25) else rng.randint(0, 2047)
                 if fid not in used_ids:
                     break
             used_ids.add(fid)
